@@ -26,6 +26,8 @@ fn kind(k: &str) -> Kind {
         "fn2" => Kind { ty: "(int, int) -> int", helper: "tf" },
         "fn1" => Kind { ty: "(int) -> int", helper: "tg" },
         "pred" => Kind { ty: "(int) -> bool", helper: "tp" },
+        "fn1v" => Kind { ty: "(int) -> ()", helper: "tgv" },
+        "fn1a" => Kind { ty: "(int) -> [int]", helper: "tga" },
         "iter" => Kind { ty: "() -> (bool, int)", helper: "ti" },
         _ => unreachable!("{k}"),
     }
@@ -41,6 +43,8 @@ tcb := (i: int, v: mut bool) -> mut bool { log += [i]; return v };
 tf := (i: int, v: (int, int) -> int) -> (int, int) -> int { log += [i]; return v };
 tg := (i: int, v: (int) -> int) -> (int) -> int { log += [i]; return v };
 tp := (i: int, v: (int) -> bool) -> (int) -> bool { log += [i]; return v };
+tgv := (i: int, v: (int) -> ()) -> (int) -> () { log += [i]; return v };
+tga := (i: int, v: (int) -> [int]) -> (int) -> [int] { log += [i]; return v };
 ti := (i: int, v: () -> (bool, int)) -> () -> (bool, int) { log += [i]; return v };";
 
 #[derive(Clone)]
@@ -100,6 +104,14 @@ fn cases(thorough: bool) -> Vec<Case> {
     // call: callee then arguments
     add("call", "{0}({1}, {2})", vec![p("fn2", "(a: int, b: int) -> int { return a + b }"), p("int", "1"), p("int", "2")], None);
     add("call1", "{0}({1})", vec![p("fn1", "(a: int) -> int { return a }"), p("int", "1")], None);
+    // callees that do not use their parameters (a constant body, an empty body, a native
+    // function): the arguments are evaluated all the same
+    add("call of a constant function", "{0}({1}, {2})", vec![p("fn2", "(a: int, b: int) -> int { return 7 }"), p("int", "1"), p("int", "2")], None);
+    add("call1 of a constant function", "{0}({1})", vec![p("fn1", "(a: int) -> int { return 7 }"), p("int", "1")], None);
+    add("call1 of a function with an empty body", "{0}({1})", vec![p("fn1v", "(a: int) -> () { }"), p("int", "1")], None);
+    add("call1 of a function returning a constant array", "{0}({1})", vec![p("fn1a", "(a: int) -> [int] { return [1, 2] }"), p("int", "1")], None);
+    add("constant function in an operand", "{0}({1}) + {2}", vec![p("fn1", "(a: int) -> int { return 7 }"), p("int", "1"), p("int", "2")], None);
+    add("constant function as an argument's callee", "{0}({1}({2}), {3})", vec![p("fn2", "(a: int, b: int) -> int { return a + b }"), p("fn1", "(a: int) -> int { return 7 }"), p("int", "1"), p("int", "2")], None);
     add("nested call", "{0}({1}, {2}({3}))", vec![p("fn2", "(a: int, b: int) -> int { return a + b }"), p("int", "1"), p("fn1", "(a: int) -> int { return a }"), p("int", "2")], None);
     // literals
     add("array", "[{0}, {1}, {2}]", vec![p("int", "1"), p("int", "2"), p("int", "3")], None);
@@ -179,6 +191,7 @@ fn render(case: &Case, modes: &[u8]) -> (String, Vec<usize>, Vec<i64>) {
     let mut text = case.template.clone();
     let mut params = Vec::new();
     let mut expected = Vec::new();
+    let mut captured = String::new();
     for (i, (pos, m)) in case.pos.iter().zip(modes).enumerate() {
         let k = kind(pos.kind);
         let tag = (i + 1) as i64;
@@ -187,8 +200,14 @@ fn render(case: &Case, modes: &[u8]) -> (String, Vec<usize>, Vec<i64>) {
                 params.push(i);
                 format!("{}({tag}, q{i})", k.helper)
             }
-            1 if ["fn1", "fn2", "pred"].contains(&pos.kind) => pos.lit.to_string(),
+            1 if ["fn1", "fn2", "pred", "fn1v", "fn1a"].contains(&pos.kind) => pos.lit.to_string(),
             1 => format!("({})", pos.lit),
+            // a name bound outside the function: a constant the folder substitutes when the
+            // function value is created (cells and iterators stay run-time parameters)
+            3 if !["cell", "bcell", "iter"].contains(&pos.kind) => {
+                captured.push_str(&format!("k{i} := {};\n", pos.lit));
+                format!("k{i}")
+            }
             _ => {
                 params.push(i);
                 format!("q{i}")
@@ -203,7 +222,7 @@ fn render(case: &Case, modes: &[u8]) -> (String, Vec<usize>, Vec<i64>) {
     }
     let plist: Vec<String> = params.iter().map(|&i| format!("q{i}: {}", kind(case.pos[i].kind).ty)).collect();
     (
-        format!("f := ({}) -> any {{ {HELPERS} r := {text}; return *log }}", plist.join(", ")),
+        format!("{captured}f := ({}) -> any {{ {HELPERS} r := {text}; return *log }}", plist.join(", ")),
         params,
         expected,
     )
@@ -225,15 +244,19 @@ pub fn run(tier: &str) -> i32 {
     let mut jobs: Vec<(usize, Vec<u8>)> = Vec::new();
     for (ci, c) in cs.iter().enumerate() {
         let k = c.pos.len();
-        for mask in 0..3usize.pow(k as u32) {
+        for mask in 0..4usize.pow(k as u32) {
             let mut m = mask;
             let modes: Vec<u8> = (0..k)
                 .map(|_| {
-                    let d = (m % 3) as u8;
-                    m /= 3;
+                    let d = (m % 4) as u8;
+                    m /= 4;
                     d
                 })
                 .collect();
+            // mode 3 (captured constant) does not apply to stateful operands: same as mode 2 there
+            if modes.iter().zip(&c.pos).any(|(d, p)| *d == 3 && ["cell", "bcell", "iter"].contains(&p.kind)) {
+                continue;
+            }
             if !modes.contains(&0) {
                 continue;
             }
@@ -282,7 +305,7 @@ pub fn run(tier: &str) -> i32 {
             })();
             verif::set_fuel(None, None);
             let want = format!("[{}]", expected.iter().map(|i| i.to_string()).collect::<Vec<_>>().join(", "));
-            let mode_s: String = modes.iter().map(|m| ['E', 'L', 'h'][*m as usize]).collect();
+            let mode_s: String = modes.iter().map(|m| ['E', 'L', 'h', 'k'][*m as usize]).collect();
             match outcome {
                 Ok(log) => {
                     acc.logs.insert(log.clone());
